@@ -744,11 +744,17 @@ LEGAL = {
     "<omitted>": ("omit", "fro"), "None": (None, "fro"), "'fro'": ("fro", "fro"), "'F'": ("F", "fro"),
     "1": (1, "one"), "2": (2, "two"), "np.inf": (np.inf, "inf"), "'inf'": ("inf", "inf"),
     "float('inf')": (float("inf"), "inf"),
+    # the same VALUES as numpy scalars / floats (a loop variable from np.array([1, 2]), a parsed configuration value)
+    "np.int64(1)": (np.int64(1), "one"), "np.int32(2)": (np.int32(2), "two"), "np.int64(2)": (np.int64(2), "two"),
+    "np.uint8(1)": (np.uint8(1), "one"), "2.0": (2.0, "two"), "1.0": (1.0, "one"), "np.float64(2.0)": (np.float64(2.0), "two"),
+    "np.float64(np.inf)": (np.float64(np.inf), "inf"),
 }
 ILLEGAL = {
     "'nuc'": "nuc", "3": 3, "-1": -1, "0": 0, "'Inf'": "Inf", "'1'": "1",          # DESIGN.md list
     "'2'": "2", "-np.inf": -np.inf, "'FRO'": "FRO", "'f'": "f", "'INF'": "INF", "1.5": 1.5, "-2": -2,
     "'fro '": "fro ", "''": "", "'one'": "one", "np.nan": float("nan"),
+    "np.int64(7)": np.int64(7), "np.int64(-1)": np.int64(-1), "np.float64(1.5)": np.float64(1.5), "(2,)": (2,), "[1]": [1],
+    "'spectral'": "spectral", "'max'": "max", "'-inf'": "-inf",
 }
 TABLE_SHAPES = [(1, 1), (1, 3), (3, 1), (2, 2), (2, 3), (3, 2), (4, 4)]
 
@@ -763,13 +769,15 @@ def table_matrix(m, n, d):
                  dtype=float).reshape(m, n, 4)
     if d == 1:
         A = A * 1e-7
+    if d == -1:
+        A = A * 0.0            # the zero matrix: every legal norm is 0, every illegal ord is still rejected
     return A
 
 
 def enum_table(tier):
     cases = []
     for (m, n) in TABLE_SHAPES:
-        for d in range(2 if tier == "quick" else 3):
+        for d in [-1] + list(range(2 if tier == "quick" else 3)):
             for name in LEGAL:
                 cases.append({"shape": [m, n], "draw": d, "ord": name, "legal": True})
             for name in ILLEGAL:
